@@ -310,7 +310,12 @@ def run(ctx):
         "_infos_set_glyph_flags), of propagate_flags, and of the primitives that rename glyphs (set_cluster, delete_glyph, "
         "merge_clusters, merge_out_clusters: which flags a renamed glyph carries); tied to the crate by the flags-prims and "
         "flags-carry correspondence streams and, for the call sites inside the GSUB interpreter, by gsub-flags (Gsub.lean)",
-        "delete_glyphs_inplace has no theorem: its flag contract is the carry-exact oracle + flags-carry correspondence",
+        "delete_glyphs_inplace: the `Merge cluster backward` iteration has a theorem (C03_delin_backward_carries_flags: the run that "
+        "takes over the deleted glyph's cluster carries the deleted glyph's flags); the other branches and the whole loop are the "
+        "carry-exact oracle + flags-carry correspondence; through shape() by break-safety-di / concat-redistribution-di",
+        "apply_stch (Arabic shaper) is not modelled: that it flags mark + word is searched by break-safety-stch on synthetic and "
+        "corpus stch fonts; the class arabic-pcm-stch is no longer decided from the text but from the cut and the difference and "
+        "only applies to the concat experiment (flagslib.stch_attribution)",
         "synthetic-font streams: DIFFs in fonts that can produce a multi-glyph sequence or run a nested lookup after a deleting "
         "one are attributed to the finding classes deleted-flag-carrier / nested-delete-drift from the recipe alone "
         "(over-approximation: a new defect that shows only in such fonts would be reported under that class); 6 fonts in 10 "
